@@ -102,7 +102,7 @@ int parsec_data_transfer_ownership_to_copy(parsec_data_t *data, uint8_t device, 
 static void dump_state(char *buf, unsigned long n)
 {
     unsigned long l = 0;
-    int full = -1, leaked = 0, waiting = 0;
+    int full = -1, leaked = 0, waiting = 0, exhausted = -1;
     buf[0] = 0;
     for (int k = 0; k < SH->ntiles && l + 160 < n; k++) {
         parsec_data_t *d = DC ? DC->data_of(DC, k, 0) : NULL;
@@ -143,9 +143,12 @@ static void dump_state(char *buf, unsigned long n)
                                      (unsigned long)g->data_avail_epoch, g->memory ? (unsigned long)zone_in_use(g->memory) : 0UL);
         if (0 == nl && no > 0 && g->mutex > 0) full = g->super.device_index;
         if (g->mutex > 0) waiting = 1;
+        if (g->mutex > 0 && g->memory && zone_in_use(g->memory) >= (size_t)g->mem_nb_blocks * g->mem_block_size) exhausted = g->super.device_index;
     }
     if (full < 0 && leaked > 0 && waiting && l + 200 < n)
         l += (unsigned long)snprintf(buf + l, n - l, " [lru-leak: %d clean device copies without reader are in no LRU (dropped by reserve_space, never pushed back) while a task waits for device memory]", leaked);
+    if (full < 0 && !(leaked > 0 && waiting) && exhausted >= 0 && l + 200 < n)
+        l += (unsigned long)snprintf(buf + l, n - l, " [device-memory-exhausted: every block of device %d is allocated, a task waits for memory in the device pipeline and nothing can be evicted]", exhausted);
     if (full >= 0 && l + 200 < n)
         snprintf(buf + l, n - l, " [device-memory-full-of-dirty-copies: device %d has no clean copy to evict, only OWNED ones, a task is waiting for memory in the device pipeline and no write-back is ever issued]", full);
 }
